@@ -82,6 +82,16 @@ def run(ctx, V):
             sc.requests.insert(0, dict(client=0, line="%s %s" % (w, names[:40]), word=w, targets=[], mode="unknown-long", step=pos))
             V.count("unknown-long-list")
 
+    # request lines that are EMPTY after blank stripping: each is a request (answered 201 + prompt), never a bare second prompt
+    for i, sc in enumerate(scs):
+        if i % 7 == 5:
+            pos = C06.after_connects(sc.script)
+            extra = []
+            for _ in range(ctx.rng.randint(1, 3)):
+                extra += [("send", 0, ctx.rng.choice([b"\r\n", b"\n", b"  \r\n", b"\t\r\n", b" \t \n"])), ("wait", 0)]
+            sc.script[pos:pos] = extra
+            V.count("blank-request-lines")
+
     def mon_nodesets(sess, sc):
         bad = []
         for k, stream in sess.client_out.items():
